@@ -26,6 +26,7 @@ import (
 	"github.com/holiman/uint256"
 	"github.com/rs/zerolog"
 	"github.com/shopspring/decimal"
+	e2types "github.com/wealdtech/go-eth2-types/v2"
 	"go.opentelemetry.io/otel/trace"
 )
 
@@ -389,4 +390,79 @@ func VerifC09_DeadlineEligible() {
 		vnd.Assert(resp == nil || resp.bid == nil, "C09.deadline-eligible.ineligible-or-not-improving-bid-never-passed-on")
 	}
 	vnd.Assert(relay.calls == 1, "C09.deadline-eligible.relay-asked-once")
+}
+
+// c09KeyedRelay is a relay that announces a public key of its own.
+type c09KeyedRelay struct {
+	c09Relay
+	key *phase0.BLSPubKey
+}
+
+func (r *c09KeyedRelay) Pubkey() *phase0.BLSPubKey { return r.key }
+
+// VerifC09_DeadlineSignature: two consecutive bid requests on one strategy
+// instance with the same relay. When the relay's public key is known - from the
+// relay's configuration or from the relay itself - the signature of its bid is
+// verified each time and a bid whose signature does not verify is never passed
+// on; a key of the right length that cannot be decoded makes the relay's bid an
+// error each time (never a crash, also not on the second use); with no key
+// known the bid is taken without verification. (The BLS pairing check itself is
+// an oracle with a symbolic outcome.)
+func VerifC09_DeadlineSignature() {
+	ct := vstub.NewChainTime(0)
+	s := &Service{chainTime: ct, relayPubkeys: map[phase0.BLSPubKey]*e2types.BLSPublicKey{}}
+	slotStart := uint64(ct.StartOfSlot(c09Slot).Unix())
+	bid := c09Bid(7, slotStart, 1)
+	relay := &c09KeyedRelay{c09Relay: c09Relay{name: "relay-a", start: vnd.NowNs(), latency: []time.Duration{0, 0}, fail: []bool{false, false}, bids: []*builderspec.VersionedSignedBuilderBid{bid, bid}}}
+	rc := &beaconblockproposer.RelayConfig{Address: "relay-a", MinValue: decimal.New(0, 0)}
+	known := false
+	if vnd.Bool("key-in-relay-configuration") {
+		rc.PublicKey = &phase0.BLSPubKey{0xa1}
+		known = true
+	}
+	if vnd.Bool("key-announced-by-relay") {
+		relay.key = &phase0.BLSPubKey{0xb2}
+		known = true
+	}
+	undecodable := false
+	if known && vnd.Bool("key-is-not-a-curve-point") {
+		undecodable = true
+		vnd.BLSInvalidKey((&phase0.BLSPubKey{0xa1})[:])
+		vnd.BLSInvalidKey((&phase0.BLSPubKey{0xb2})[:])
+	}
+	log := zerolog.Nop()
+	for round := 0; round < 2; round++ {
+		respCh := make(chan *builderBidResponse, 2)
+		errCh := make(chan *builderBidError, 2)
+		before := vnd.BLSVerifyCalls()
+		s.builderBidAttempt(context.Background(), &log, trace.SpanFromContext(context.Background()), relay, respCh, errCh, c09Slot, phase0.Hash32{}, phase0.BLSPubKey{}, rc, nil, nil, 0)
+		var resp *builderBidResponse
+		var berr *builderBidError
+		select {
+		case resp = <-respCh:
+		default:
+		}
+		select {
+		case berr = <-errCh:
+		default:
+		}
+		passedOn := resp != nil && resp.bid == bid
+		switch {
+		case !known:
+			vnd.Cover("C09.signature.no-key-known")
+			vnd.Assert(vnd.BLSVerifyCalls() == before && passedOn, "C09.signature.no-key-no-verification-bid-taken")
+		case undecodable:
+			vnd.Cover("C09.signature.undecodable-key")
+			vnd.Assert(!passedOn && berr != nil, "C09.signature.undecodable-key-is-an-error-every-time")
+		default:
+			vnd.Assert(vnd.BLSVerifyCalls() == before+1, "C09.signature.verified-when-a-key-is-known")
+			valid := vnd.BLSVerifyResult(before)
+			if valid {
+				vnd.Cover("C09.signature.valid")
+			} else {
+				vnd.Cover("C09.signature.invalid")
+			}
+			vnd.Assert(passedOn == valid, "C09.signature.bid-passed-on-exactly-when-its-signature-verifies")
+		}
+	}
 }
